@@ -41,12 +41,19 @@ POISON = {
     'digraph.c': b'int a<:3:> = <% 1, 2, 3 %>;\n',
     'nul.c': b'int a;\x00\n',
     'garbage.c': b'}}}} ) ) ( {{{ \n',
+    # sorting caches: a sorted include group, then a late include after a long gap (early exits of the sorting pass), base-name priority
+    'widget.cpp': b'#include "zeta.h"\n#include "widget.h"\n#include "alpha.h"\n\n' + b'int w;\n#include "late.h"\n' + b'\n' * 140 + b'int v;\n#include "later.h"\n/*\n' + b' * long comment\n' * 140 + b' */\nint u;\n',
+    'gadget.cpp': b'#include "zeta.h"\n#include "widget.h"\n#include "gadget.h"\n#include "alpha.h"\n#include <vector>\nint g;\n',
+    'widget.java': b'import z.Zeta;\nimport a.Alpha;\nimport static q.Q.*;\n\n' + b''.join(b'// l%d\n' % i for i in range(140)) + b'class widget { }\n',
+    'gadget.cs': b'using Zeta;\nusing Alpha;\nusing System;\n\n' + b''.join(b'// l%d\n' % i for i in range(140)) + b'using Late;\nclass gadget { }\n',
+    'props.m': b'@interface A : NSObject\n@property (nonatomic, readonly, strong) NSString *a;\n@property (copy, atomic) NSString *b;\n@end\n',
 }
 
 CONFIGS = {
     'default': '',
     'auto_sort_qt': 'newlines=auto\nmod_sort_include=true\nmod_sort_using=true\nmod_sort_import=true\nuse_options_overriding_for_qt_macros=true\nsp_inside_paren=force\nsp_after_comma=force\nindent_with_tabs=0\nutf8_bom=ignore\n',
     'ben': None,
+    'sort_all': 'mod_sort_include=true\nmod_sort_using=true\nmod_sort_import=true\nmod_sort_case_sensitive=true\nmod_sort_incl_import_prioritize_filename=true\nmod_sort_incl_import_prioritize_extensionless=true\nmod_sort_incl_import_prioritize_angle_over_quotes=true\nmod_sort_incl_import_ignore_extension=true\nmod_sort_incl_import_grouping_enabled=true\nmod_sort_oc_properties=true\nmod_remove_duplicate_include=true\n',
     'width': 'code_width=60\nalign_assign_span=2\nalign_var_def_span=2\nalign_right_cmt_span=3\nnl_max=2\nmod_full_brace_if=add\nmod_add_long_ifdef_endif_comment=1\nindent_columns=3\n',
 }
 
@@ -134,7 +141,13 @@ def check(ctx):
             if p == v:
                 continue
             fr = fixed_rng(PROP, 'pair:%s:%s' % (p, v))
-            batches.append(((p, v), fr.choice(sorted(CONFIGS)), fr.choice(lopts), fr.choice(hows)))
+            if v in POISON:
+                # hand-written poisoner -> hand-written victim: under every configuration (each poisoner is aimed at one mechanism,
+                # and the mechanism may need the option that switches its pass on)
+                for c in sorted(CONFIGS):
+                    batches.append(((p, v), c, fr.choice(lopts) if c != 'sort_all' else (), fr.choice(hows)))
+            else:
+                batches.append(((p, v), fr.choice(sorted(CONFIGS)), fr.choice(lopts), fr.choice(hows)))
     # the ObjC-probe poisoner against every C victim under -l C (the mechanism the statement names)
     for v in vsel:
         if v.startswith('c__'):
